@@ -1,6 +1,7 @@
 package main
 
 import (
+	"regexp"
 	"fmt"
 	"go/token"
 	"go/types"
@@ -15,6 +16,7 @@ import (
 )
 
 type Engine struct {
+	privateAllocs sync.Map // *ssa.Alloc -> bool (allocIsPrivate)
 	repo    string
 	modPath string
 	fset    *token.FileSet
@@ -98,6 +100,47 @@ func (e *Engine) load(pkgPaths []string) error {
 				}
 			}
 			addAnon(fn)
+		}
+	}
+	// function literals bound to package-level variables (`var newConnection = func(...)`):
+	// addressable as <var>$var, independent of their position in the package initialiser
+	for _, p := range prog.AllPackages() {
+		if p.Pkg == nil || !strings.HasPrefix(p.Pkg.Path(), e.modPath) {
+			continue
+		}
+		initFn := p.Func("init")
+		if initFn == nil {
+			continue
+		}
+		idx := e.funcIndex[p.Pkg.Path()]
+		if idx == nil {
+			continue
+		}
+		for _, b := range initFn.Blocks {
+			for _, in := range b.Instrs {
+				st, ok := in.(*ssa.Store)
+				if !ok {
+					continue
+				}
+				g, ok := st.Addr.(*ssa.Global)
+				if !ok {
+					continue
+				}
+				if fn, ok := st.Val.(*ssa.Function); ok && fn.Parent() == initFn {
+					idx[g.Name()+"$var"] = fn
+					fnAliases[fn] = g.Name() + "$var"
+					var addAnon func(f *ssa.Function, prefix string)
+					addAnon = func(f *ssa.Function, prefix string) {
+						for i, a := range f.AnonFuncs {
+							k := fmt.Sprintf("%s$%d", prefix, i+1)
+							idx[k] = a
+							fnAliases[a] = k
+							addAnon(a, k)
+						}
+					}
+					addAnon(fn, g.Name()+"$var")
+				}
+			}
 		}
 	}
 	for _, p := range prog.AllPackages() {
@@ -209,8 +252,17 @@ func (e *Engine) contractFor(fn *ssa.Function) *FuncContract {
 	if pc == nil {
 		return nil
 	}
+	if a, ok := fnAliases[f]; ok {
+		return pc.Funcs[a]
+	}
 	return pc.Funcs[f.RelString(f.Pkg.Pkg)]
 }
+
+var afterCallRe = regexp.MustCompile(`aftercall\("([^"]+)"`)
+
+// fnAliases names function literals bound to package-level variables after the variable
+// (filled once while loading, read-only afterwards).
+var fnAliases = map[*ssa.Function]string{}
 
 func (e *Engine) ifaceContract(it types.Type, mname string) *FuncContract {
 	key := "(" + typeName(it) + ")." + mname
@@ -307,6 +359,18 @@ func (e *Engine) verifyFunc(pkgPath string, fc *FuncContract) *FuncResult {
 		siteIDs: map[string]string{}, notes: map[string]bool{}, maxPaths: 2000, checkNil: fc.CheckNil}
 	if fc.MaxPaths > 0 {
 		c.maxPaths = fc.MaxPaths
+	}
+	c.afterCallNames = map[string]bool{}
+	scan := func(t string) {
+		for _, m := range afterCallRe.FindAllStringSubmatch(t, -1) {
+			c.afterCallNames[m[1]] = true
+		}
+	}
+	for _, cl := range fc.Ensures {
+		scan(cl.Text)
+	}
+	for _, l := range fc.Lets {
+		scan(l.Text)
 	}
 	func() {
 		defer func() {
